@@ -74,7 +74,7 @@ func DrawConfig(t *simcore.Tape, thorough bool) Config {
 	}
 	c.SyncPeers = 1 + t.CfgDraw(c.Peers)
 	switch a := t.CfgDraw(16); {
-	case a == 8:
+	case a >= 6 && a <= 8:
 		c.Aging = true
 		c.StrictZombie = t.CfgDraw(2) == 1
 	case a >= 9 && a <= 12:
